@@ -95,23 +95,24 @@ def run(ck, w):
     # ---- 2. GUARD in Stitch::next -----------------------------------------------------------------
     sn = w.body("index::stitch::Stitch::next")
     o = ck.ob("C12.2", "Stitch::next returns an entry only if subtree.is_prefix_of(entry.apath) was true and exclude.matches(entry.apath) was false")
-    pre = events_of(lib, sn, "apath::Apath::is_prefix_of")
-    exc = events_of(lib, sn, "excludes::Exclude::matches")
+    # the two tests, called directly or through a private bool helper whose result decides them (`is_selected`)
+    pre = rules.predicate_sites(lib, sn, "apath::Apath::is_prefix_of")
+    exc = rules.predicate_sites(lib, sn, "excludes::Exclude::matches")
     somes = [bb for bb, j, s in rules.agg_sites(sn, "std::option::Option", "Some")
              if any("IndexEntry" in sn.locals[flow.operand_local(op)] for op in s["rv"]["ops"] if flow.operand_local(op) is not None)
              and s["pl"]["l"] == 0]
     good = True
     retain = common.stitch_retain_idiom(w) if not pre else None
+    ee = set()
+    for e in exc:
+        ee |= e.edges[False]
     if retain is not None and exc and somes:
         # the subtree test is applied to every hunk before it is buffered (retain idiom): only the exclusion test is per entry
-        ee = set()
-        for e in exc:
-            ee |= rules.bool_switch_edges(sn, e, False)
         for bb in somes:
             if not ee or not sn.must_pass_edges(ee, bb):
                 good = False
                 ck.fail(o, sn.name, "entry returned without the exclusion test", "path: %s" % rules.witness(sn, bb, removed_edges=ee))
-        er = flow.origins_x(lib, sn, exc[0].args[0])
+        er = exc[0].arg_origins(0)
         if not any(x[0] in ("param", "upvar") and "exclude" in x[2] for x in er):
             good = False
             ck.fail(o, sn.name, "exclusion test not on self.exclude", "receiver %s" % flow.origin_summary(er), exc[0].site())
@@ -124,10 +125,7 @@ def run(ck, w):
     else:
         pe = set()
         for e in pre:
-            pe |= rules.bool_switch_edges(sn, e, True)
-        ee = set()
-        for e in exc:
-            ee |= rules.bool_switch_edges(sn, e, False)
+            pe |= e.edges[True]
         for bb in somes:
             if not pe or not sn.must_pass_edges(pe, bb):
                 good = False
@@ -136,8 +134,8 @@ def run(ck, w):
                 good = False
                 ck.fail(o, sn.name, "entry returned without the exclusion test", "path: %s" % rules.witness(sn, bb, removed_edges=ee))
         # receiver / argument order
-        r = flow.origins_x(lib, sn, pre[0].args[0])
-        a = flow.origins_x(lib, sn, pre[0].args[1])
+        r = pre[0].arg_origins(0)
+        a = pre[0].arg_origins(1)
         recv_sub = any(x[0] in ("param", "upvar") and "subtree" in x[2] for x in r)
         arg_entry = any((x[0] == "call" and "apath" in x[3]) or (x[0] in ("param", "upvar") and "apath" in x[2] and "subtree" not in x[2]) for x in a) and \
             not any(x[0] in ("param", "upvar") and "subtree" in x[2] for x in a)
@@ -145,8 +143,7 @@ def run(ck, w):
             good = False
             ck.fail(o, sn.name, "is_prefix_of operands swapped or changed",
                     "receiver %s, argument %s" % (flow.origin_summary(r), flow.origin_summary(a)), pre[0].site())
-        ea = flow.origins_x(lib, sn, exc[0].args[1])
-        er = flow.origins_x(lib, sn, exc[0].args[0])
+        er = exc[0].arg_origins(0)
         if not any(x[0] in ("param", "upvar") and "exclude" in x[2] for x in er):
             good = False
             ck.fail(o, sn.name, "exclusion test not on self.exclude", "receiver %s" % flow.origin_summary(er), exc[0].site())
